@@ -76,6 +76,25 @@ theorem readout_eq_content_plus_ident (r : P1.Readout) (d : Dict) (m : P1.IdentM
       | none => d.set field_METER_MANUFACTURER_ID (.str m.manid)) := by
   exact P1ParseRT.decodeReadout_eq r d m hd hm
 
+/-- **C11 (the content decoder's guard).** `decode_p1_readout_content` first refuses content with an
+    octet below 0x20 other than CR and LF.  A well-formed data block has none (its characters are
+    printable, CR, LF), so the guard passes: the transmitted data sets are decoded, and a block without
+    data sets is refused. -/
+theorem decode_block (b : List LineDesc) (h : ∀ l ∈ b, l.WF) :
+    decodeContent (render b) =
+      if (expectedSets b).isEmpty then .error .valueError else decodeParsed (expectedSets b) := by
+  exact P1ParseRT.decodeContent_render b h
+
+/-- content of printable characters, CR and LF (or octets ≥ 0x80): the guard passes -/
+theorem decode_guard_passes (content : List Nat) (h : ∀ c ∈ content, 32 ≤ c ∨ c = 13 ∨ c = 10) :
+    decodeContent content = decodeParsedContent content :=
+  P1ParseRT.decodeContent_of_no_control content h
+
+/-- any other control octet: ValueError, whatever the parser would have made of the content -/
+theorem decode_guard_rejects (content : List Nat) (h : ∃ c ∈ content, c < 32 ∧ c ≠ 13 ∧ c ≠ 10) :
+    decodeContent content = .error .valueError :=
+  P1ParseRT.decodeContent_control content h
+
 /-- the iteration count is in fact at most the input length -/
 theorem parse_cost_tight (data : List Nat) (items : List DataSet) (iters : Nat)
     (h : parseContent data = .ok (items, iters)) : iters ≤ data.length :=
